@@ -1,10 +1,20 @@
 /-
-Helper lemmas for C06 over the `Sched2` model (holds, hold point, restart), lemma-per-primitive,
-lifted over op lists.  Three families:
+Helper lemmas for C06 over the `Sched2` model (holds, hold point, restart), one lemma per primitive of the
+model, lifted over op lists with `run_inv`.  Families:
 
-* `launched_*`  : no primitive other than `releaseAndSubmit` records a job launch;
-* `keyHeld_*`   : the part of a main loop that precedes job release keeps a held instance held;
-* `holdInv_*`   : in the pool, `held` is exactly membership in `tasksToHold` (`HoldInv`).
+* `launched_*`  : no primitive other than `releaseAndSubmit` records a job launch; `releaseAndSubmit` launches
+                  exactly the queued, not held proxies (`launched_releaseAndSubmit`);
+* `keyHeld_*`   : the part of a main loop that precedes job release keeps a held instance held
+                  (`mainLoop_held_no_launch`, `step_held_no_launch`);
+* `spawnTask_*` : `spawnTask` in named parts (`spawnTask_eq`) and its hold decision (`spawnTask_some`);
+* `holdInv_*`   : in the pool, `held` is exactly membership in `tasksToHold` (`HoldInv`, `holdInv_run`);
+* `holdBeyondFold_*`, `restart_*` : what `setHoldPoint` and `restart` do to pool, hold table and hold point;
+* `holdTasks_*` : a hold command records every id;
+* `keeps_*`     : a recorded hold disappears only by a release command or with the removal of the instance
+                  (`Keeps`, `keeps_step`).
+Auxiliary definitions (`spawnChildFin`, `holdAtSpawn`, `reviveAtSpawn`, `absAtSpawn`, `restoreProxy`,
+`restartLoaded`, `holdBeyondFold`, `releaseAllFold`, `holdOne`) only name parts of model functions; each is tied to
+the frozen model by an equation (`*_eq`, by `rfl`) or by definitional unfolding in the lemma that uses it.
 -/
 import CylcModel.Sched2
 
@@ -999,5 +1009,1649 @@ theorem spawnTask_some {g : Graph} {s : State} {n : String} {p : Int} {y : Proxy
         · rw [ha2, hs2, hr2, hx2]
         · rw [ha3, hs3]
         · exact hs4
+
+/-! ### `HoldInv`: in the pool, held = listed in the hold table -/
+
+/-- every pooled proxy is held exactly when its instance is in `tasksToHold` -/
+def HoldInv (s : State) : Prop := ∀ x ∈ s.pool, x.held = s.tasksToHold.contains (x.name, x.pt)
+
+/-- the proxy's held flag agrees with the hold table of `s` -/
+def Agrees (s : State) (x : Proxy) : Prop := x.held = s.tasksToHold.contains (x.name, x.pt)
+
+theorem agrees_of_get? {s : State} {p : Int} {n : String} {x : Proxy} (h : HoldInv s) (hx : s.get? p n = some x) :
+    Agrees s x := h x (get?_some_mem hx).1
+
+theorem holdInv_sub {s s' : State} (hp : ∀ x ∈ s'.pool, x ∈ s.pool) (ht : s'.tasksToHold = s.tasksToHold)
+    (h : HoldInv s) : HoldInv s' := by
+  intro x hx; rw [ht]; exact h x (hp x hx)
+
+theorem holdInv_same {s s' : State} (hs : Same s' s) (h : HoldInv s) : HoldInv s' :=
+  holdInv_sub (fun _ hx => hs.1 ▸ hx) hs.2.2.1 h
+
+theorem holdInv_put {s : State} {x : Proxy} (h : HoldInv s) (hx : Agrees s x) : HoldInv (s.put x) := by
+  intro y hy
+  rcases mem_put hy with ⟨rfl, _⟩ | ⟨hy', _⟩
+  · exact hx
+  · exact h y hy'
+
+theorem holdInv_add {s : State} {x : Proxy} (h : HoldInv s) (hx : Agrees s x) : HoldInv (s.add x) := by
+  intro y hy
+  have ht : (s.add x).tasksToHold = s.tasksToHold := by unfold State.add; split <;> rfl
+  rw [ht]
+  rcases mem_add hy with hy' | ⟨rfl, _⟩
+  · exact h y hy'
+  · exact hx
+
+theorem contains_append_ne {l : List (String × Int)} {k k' : String × Int} (hne : k ≠ k') :
+    (l ++ [k']).contains k = l.contains k := by
+  simp [hne]
+
+theorem holdInv_spawnTask {g : Graph} {s : State} {n : String} {p : Int} (h : HoldInv s)
+    (hg : s.get? p n = none) :
+    HoldInv (spawnTask g s n p).1 ∧ ∀ y, (spawnTask g s n p).2 = some y → Agrees (spawnTask g s n p).1 y := by
+  cases hsp : (spawnTask g s n p).2 with
+  | none =>
+    rw [spawnTask_none hsp]
+    exact ⟨h, fun y hy => by simp at hy⟩
+  | some y =>
+    obtain ⟨hy1, hy2, hy3, hy4⟩ := spawnTask_some hsp
+    rw [hy4]
+    constructor
+    · intro x hx
+      have hx' : x ∈ s.pool := hx
+      show x.held = (holdTableAfterSpawn s n p).contains (x.name, x.pt)
+      have hne : (x.name, x.pt) ≠ (n, p) := by
+        intro he
+        simp only [Prod.mk.injEq] at he
+        exact get?_none_forall hg x hx' ⟨he.2, he.1⟩
+      unfold holdTableAfterSpawn
+      split
+      · rw [contains_append_ne hne]; exact h x hx'
+      · exact h x hx'
+    · intro y' hy'
+      simp only [Option.some.injEq] at hy'
+      subst hy'
+      show y.held = (holdTableAfterSpawn s n p).contains (y.name, y.pt)
+      rw [hy3, hy1, hy2]
+      unfold holdTableAfterSpawn
+      cases hc : s.tasksToHold.contains (n, p) <;> cases hb : beyondHold s.holdPoint p <;> simp_all
+
+theorem holdInv_spawnAndAdd {g : Graph} {s : State} (n : String) (p : Int) (h : HoldInv s) :
+    HoldInv (spawnAndAdd g s n p) := by
+  unfold spawnAndAdd
+  split
+  · exact h
+  · rename_i hn
+    have hg : s.get? p n = none := by
+      cases hg : s.get? p n with
+      | none => rfl
+      | some v => simp [hg] at hn
+    obtain ⟨h1, h2⟩ := holdInv_spawnTask (g := g) h hg
+    split
+    · rename_i st x heq
+      rw [heq] at h1 h2
+      exact holdInv_add h1 (h2 x rfl)
+    · rename_i st heq
+      rw [heq] at h1
+      exact h1
+
+theorem holdInv_spawnNextParentless {g : Graph} {s : State} (x : Proxy) (h : HoldInv s) :
+    HoldInv (spawnNextParentless g s x) := by
+  unfold spawnNextParentless
+  split
+  · exact h
+  · split
+    · exact holdInv_spawnAndAdd _ _ h
+    · exact h
+
+theorem agrees_reset {s : State} {x : Proxy} (a : Option Status) (b c : Option Bool) (hx : Agrees s x) :
+    Agrees s (x.reset a b c none) := by
+  unfold Agrees at *
+  simp only [reset_held_none, reset_name, reset_pt]
+  exact hx
+
+theorem holdInv_releaseRunahead {g : Graph} {s : State} (h : HoldInv s) : HoldInv (releaseRunahead g s).1 := by
+  unfold releaseRunahead
+  split
+  · exact h
+  · split
+    · exact h
+    · simp only
+      refine foldl_inv HoldInv _ ?_ _ _ h
+      intro st x hst
+      apply holdInv_spawnNextParentless
+      split
+      · rename_i y hy
+        exact holdInv_put hst (agrees_reset _ _ _ (agrees_of_get? hst hy))
+      · exact hst
+
+theorem holdInv_releaseRunaheadN {g : Graph} : ∀ (n : Nat) (s : State), HoldInv s → HoldInv (releaseRunaheadN g n s) := by
+  intro n; induction n with
+  | zero => intro s h; exact h
+  | succ n ih =>
+    intro s h
+    unfold releaseRunaheadN
+    simp only
+    split
+    · exact ih _ (holdInv_releaseRunahead h)
+    · exact holdInv_releaseRunahead h
+
+theorem holdInv_queueIfReady {s : State} {x : Proxy} (h : HoldInv s) (hx : Agrees s x) :
+    HoldInv (queueIfReady s x) := by
+  unfold queueIfReady; split
+  · exact holdInv_put h (agrees_reset _ _ _ hx)
+  · exact h
+
+/-- `hold_active_task` keeps the invariant, whatever proxy it is given -/
+theorem holdInv_holdActive {s : State} (x : Proxy) (h : HoldInv s) : HoldInv (holdActive s x) := by
+  unfold holdActive
+  simp only
+  have hx' : (x.reset (held := some true)).held = true := reset_held_some x true
+  split
+  · rename_i hc
+    apply holdInv_put h
+    unfold Agrees
+    rw [hx']; simp only [reset_name, reset_pt]
+    exact hc.symm
+  · rename_i hc
+    intro y hy
+    show y.held = (s.tasksToHold ++ [(x.name, x.pt)]).contains (y.name, y.pt)
+    rcases mem_put hy with ⟨rfl, _⟩ | ⟨hy', hk⟩
+    · rw [hx']; simp
+    · have hne : (y.name, y.pt) ≠ (x.name, x.pt) := by
+        intro he
+        simp only [Prod.mk.injEq] at he
+        exact hk ⟨by simpa using he.2, by simpa using he.1⟩
+      rw [contains_append_ne hne]
+      exact h y hy'
+
+theorem contains_filter_ne {l : List (String × Int)} {k k' : String × Int} (hne : k ≠ k') :
+    (l.filter (· != k')).contains k = l.contains k := by
+  induction l with
+  | nil => rfl
+  | cons a l ih =>
+    simp only [List.filter_cons]
+    split
+    · simp only [List.contains_cons, ih]
+    · rename_i ha
+      simp only [bne_iff_ne, ne_eq, Decidable.not_not] at ha
+      subst ha
+      simp only [List.contains_cons, ih]
+      have : (k == a) = false := by simpa using hne
+      rw [this]; simp
+
+theorem contains_filter_self {l : List (String × Int)} {k : String × Int} :
+    (l.filter (· != k)).contains k = false := by
+  induction l with
+  | nil => rfl
+  | cons a l ih =>
+    simp only [List.filter_cons]
+    split
+    · rename_i ha
+      simp only [List.contains_cons, ih, Bool.or_false]
+      simp only [bne_iff_ne, ne_eq] at ha
+      simpa using fun h => ha h.symm
+    · exact ih
+
+/-- `release_held_active_task` keeps the invariant when the given proxy is the pooled one -/
+theorem holdInv_releaseHeldActive {s : State} {x : Proxy} (h : HoldInv s) (hx : Agrees s x) :
+    HoldInv (releaseHeldActive s x) := by
+  unfold releaseHeldActive
+  by_cases hxh : x.held = true
+  · -- the proxy was held: it is replaced by a released copy
+    simp only [hxh, if_true]
+    intro y hy
+    show y.held = (s.tasksToHold.filter (· != (x.name, x.pt))).contains (y.name, y.pt)
+    have hy' := mem_put hy
+    have hyf : (x.reset (held := some false)).held = false := reset_held_some x false
+    rcases hy' with ⟨hy1, _⟩ | ⟨hy1, hk⟩
+    · have hk : y.name = x.name ∧ y.pt = x.pt := by
+        rw [hy1]; split <;> simp
+      have hh : y.held = false := by
+        rw [hy1]; split
+        · rw [reset_held_none]; exact hyf
+        · exact hyf
+      rw [hh, hk.1, hk.2, contains_filter_self]
+    · have hk' : ¬ (y.pt = x.pt ∧ y.name = x.name) := by
+        intro hh; apply hk
+        split <;> simp [hh.1, hh.2]
+      have hne : (y.name, y.pt) ≠ (x.name, x.pt) := by
+        intro he; simp only [Prod.mk.injEq] at he; exact hk' ⟨he.2, he.1⟩
+      rw [contains_filter_ne hne]; exact h y hy1
+  · simp only [hxh]
+    have hxf : x.held = false := by simpa using hxh
+    intro y hy
+    show y.held = (s.tasksToHold.filter (· != (x.name, x.pt))).contains (y.name, y.pt)
+    have hy1 : y ∈ s.pool := hy
+    by_cases hk : y.pt = x.pt ∧ y.name = x.name
+    · rw [hk.1, hk.2, contains_filter_self]
+      have := h y hy1
+      rw [hk.1, hk.2] at this
+      rw [this]
+      unfold Agrees at hx
+      rw [← hx]; exact hxf
+    · have hne : (y.name, y.pt) ≠ (x.name, x.pt) := by
+        intro he; simp only [Prod.mk.injEq] at he; exact hk ⟨he.2, he.1⟩
+      rw [contains_filter_ne hne]; exact h y hy1
+
+theorem holdInv_empty (sp : Option Int) : HoldInv ({ stopPoint := sp } : State) := by
+  intro x hx; simp at hx
+
+theorem holdInv_loadFromPoint (g : Graph) : HoldInv (loadFromPoint g) := by
+  unfold loadFromPoint
+  simp only
+  refine foldl_inv HoldInv _ ?_ _ _ ?_
+  · intro st x hst
+    split
+    · rename_i y hy
+      exact holdInv_queueIfReady hst (agrees_of_get? hst hy)
+    · exact hst
+  · apply holdInv_releaseRunaheadN
+    apply holdInv_same (same_computeRunahead g _ false)
+    refine foldl_inv HoldInv _ ?_ _ _ (holdInv_empty _)
+    intro st t hst
+    split
+    · exact holdInv_spawnAndAdd _ _ hst
+    · exact hst
+
+theorem holdInv_releaseAndSubmit {s : State} (h : HoldInv s) : HoldInv (releaseAndSubmit s) := by
+  unfold releaseAndSubmit
+  simp only
+  split
+  · exact h
+  · show HoldInv _
+    have hmem : ∀ x ∈ (s.pool.filter fun x => x.queued && !x.held), x ∈ s.pool :=
+      fun x hx => (List.mem_filter.mp hx).1
+    -- along the fold the hold table stays that of `s`
+    have key : ∀ (l : List Proxy) (st : State), (∀ x ∈ l, x ∈ s.pool) → st.tasksToHold = s.tasksToHold → HoldInv st →
+        HoldInv (l.foldl (fun (st : State) x =>
+          let y := x.reset (queued := some false)
+          let y := { (y.reset (status := some .preparing)) with submitNum := x.submitNum + 1, live := true, timers := true }
+          { (st.put y) with launched := st.launched ++ [(x.pt, x.name, x.submitNum + 1)] }) st) ∧
+        (l.foldl (fun (st : State) x =>
+          let y := x.reset (queued := some false)
+          let y := { (y.reset (status := some .preparing)) with submitNum := x.submitNum + 1, live := true, timers := true }
+          { (st.put y) with launched := st.launched ++ [(x.pt, x.name, x.submitNum + 1)] }) st).tasksToHold = s.tasksToHold := by
+      intro l; induction l with
+      | nil => intro st _ ht hst; exact ⟨hst, ht⟩
+      | cons a l ih =>
+        intro st hl ht hst
+        simp only [List.foldl_cons]
+        apply ih
+        · exact fun x hx => hl x (List.mem_cons_of_mem _ hx)
+        · exact ht
+        · have ha : Agrees st ({ ((a.reset (queued := some false)).reset (status := some .preparing)) with
+              submitNum := a.submitNum + 1, live := true, timers := true } : Proxy) := by
+            unfold Agrees
+            simp only [reset_held_none, reset_name, reset_pt]
+            rw [ht]
+            exact h a (hl a List.mem_cons_self)
+          exact holdInv_put hst ha
+    have := (key _ s hmem rfl h).1
+    exact this
+
+theorem holdInv_remove {g : Graph} {s : State} {x : Proxy} (h : HoldInv s) (hx : Agrees s x) :
+    HoldInv (remove g s x) := by
+  unfold remove
+  extract_lets s1 x1 s2
+  have h1 : HoldInv s1 := holdInv_releaseHeldActive h hx
+  have h2 : HoldInv s2 := by
+    simp only [s2]
+    split
+    · exact holdInv_spawnNextParentless _ h1
+    · exact h1
+  exact holdInv_sub (s := s2) (fun y hy => (List.mem_filter.mp hy).1) rfl h2
+
+theorem holdInv_removeIfComplete {g : Graph} {s : State} {x : Proxy} (h : HoldInv s) (hx : Agrees s x) :
+    HoldInv (removeIfComplete g s x) := by
+  unfold removeIfComplete
+  split
+  · exact h
+  · simp only
+    have key : ∀ s1 : State, Same s1 s →
+        HoldInv (match g.task? x.name with
+          | none => s1
+          | some t => if isComplete t x.done = true then remove g s1 x else s1) := by
+      intro s1 hs1
+      have h1 : HoldInv s1 := holdInv_same hs1 h
+      have hx1 : Agrees s1 x := by unfold Agrees at *; rw [hs1.2.2.1]; exact hx
+      split
+      · exact h1
+      · split
+        · exact holdInv_remove h1 hx1
+        · exact h1
+    apply key
+    split
+    · exact ⟨rfl, rfl, rfl, rfl⟩
+    · exact Same.refl s
+
+theorem agrees_satisfyMe {s : State} {x : Proxy} (a : Atom) (hx : Agrees s x) : Agrees s (x.satisfyMe a) := hx
+
+theorem holdInv_spawnChildFin {p : Int} {n out : String} {sui : List (Int × String)} {c : Child}
+    {st1 : State} {ch : Option Proxy} {inPool : Bool} (h : HoldInv st1)
+    (hch : inPool = false → ∀ y, ch = some y → Agrees st1 y) :
+    HoldInv (spawnChildFin p n out sui c st1 ch inPool).1 := by
+  unfold spawnChildFin
+  split
+  · exact h
+  · rename_i y
+    refine foldl_inv (fun a : State × List (Int × String) => HoldInv a.1) _ ?_ _ _ ?_
+    · intro a k ha
+      simp only
+      split
+      · exact ha
+      · rename_i z hz
+        exact holdInv_put ha (agrees_satisfyMe _ (agrees_of_get? ha hz))
+    · simp only
+      split
+      · exact h
+      · rename_i hin
+        have hin' : inPool = false := by simpa using hin
+        exact holdInv_add h (agrees_satisfyMe _ (hch hin' y rfl))
+
+theorem holdInv_spawnChild {g : Graph} {p : Int} {n out : String} {acc : State × List (Int × String)} {c : Child}
+    (h : HoldInv acc.1) : HoldInv (spawnChild g p n out acc c).1 := by
+  obtain ⟨st, sui⟩ := acc
+  rw [spawnChild_eq]
+  simp only
+  have h0 : HoldInv (if (c.isAbs && !st.absDone.contains ⟨p, n, out⟩) = true then
+      { st with absDone := st.absDone ++ [⟨p, n, out⟩] } else st) := by
+    split
+    · exact holdInv_same (s := st) ⟨rfl, rfl, rfl, rfl⟩ h
+    · exact h
+  generalize (if (c.isAbs && !st.absDone.contains ⟨p, n, out⟩) = true then
+      { st with absDone := st.absDone ++ [⟨p, n, out⟩] } else st) = st0 at h0 ⊢
+  split
+  · exact holdInv_spawnChildFin h0 (by intro hf; simp at hf)
+  · rename_i hg
+    obtain ⟨h1, h2⟩ := holdInv_spawnTask (g := g) h0 hg
+    exact holdInv_spawnChildFin h1 (fun _ y hy => h2 y hy)
+
+theorem holdInv_spawnOnOutput {g : Graph} {s : State} (p : Int) (n out : String) (h : HoldInv s) :
+    HoldInv (spawnOnOutput g s p n out) := by
+  unfold spawnOnOutput
+  split
+  · exact h
+  · simp only
+    have h1 : ∀ (cs : List Child) (acc : State × List (Int × String)), HoldInv acc.1 →
+        HoldInv (cs.foldl (spawnChild g p n out) acc).1 := by
+      intro cs; induction cs with
+      | nil => intro acc ha; exact ha
+      | cons c cs ih => intro acc ha; exact ih _ (holdInv_spawnChild ha)
+    have h2 : ∀ (ks : List (Int × String)) (st : State), HoldInv st →
+        HoldInv (ks.foldl (fun (st : State) k => match st.get? k.1 k.2 with
+          | some z => remove g st z
+          | none => st) st) := by
+      intro ks; induction ks with
+      | nil => intro st hst; exact hst
+      | cons k ks ih =>
+        intro st hst
+        apply ih
+        simp only
+        split
+        · rename_i z hz
+          exact holdInv_remove hst (agrees_of_get? hst hz)
+        · exact hst
+    generalize hR : (List.foldl (spawnChild g p n out) (s, []) _) = R
+    have hRn : HoldInv R.1 := by rw [← hR]; exact h1 _ _ h
+    have h3 := h2 R.2 R.1 hRn
+    split
+    · rename_i x' hx'
+      exact holdInv_removeIfComplete h3 (agrees_of_get? h3 hx')
+    · exact h3
+
+theorem holdInv_store {s : State} {x : Proxy} {tr : Bool} (h : HoldInv s) (hx : tr = false → Agrees s x) :
+    HoldInv (store s x tr) := by
+  unfold store; split
+  · exact holdInv_same (s := s) ⟨rfl, rfl, rfl, rfl⟩ h
+  · rename_i htr
+    exact holdInv_put h (hx (by simpa using htr))
+
+theorem holdInv_spawnChildren {g : Graph} {s : State} (p : Int) (n out : String) (tr : Bool) (h : HoldInv s) :
+    HoldInv (spawnChildren g s p n out tr) := by
+  unfold spawnChildren; split
+  · exact h
+  · exact holdInv_spawnOnOutput _ _ _ h
+
+theorem tasksToHold_store (s : State) (x : Proxy) (tr : Bool) : (store s x tr).tasksToHold = s.tasksToHold := by
+  unfold store; split <;> rfl
+
+theorem agrees_of_lookup {s : State} {p : Int} {n : String} {x : Proxy} {tr : Bool} (h : HoldInv s)
+    (hl : lookup s p n = some (x, tr)) : tr = false → Agrees s x := by
+  intro htr
+  unfold lookup at hl
+  split at hl
+  · rename_i y hy
+    simp only [Option.some.injEq, Prod.mk.injEq] at hl
+    rw [← hl.1]; exact agrees_of_get? h hy
+  · simp only [Option.map_eq_some_iff, Prod.mk.injEq] at hl
+    obtain ⟨_, _, _, ht⟩ := hl
+    rw [htr] at ht; simp at ht
+
+@[simp] theorem setComplete_pt (g : Graph) (x : Proxy) (m : String) : (setComplete g x m).1.pt = x.pt :=
+  (setComplete_fields g x m).1
+@[simp] theorem setComplete_name (g : Graph) (x : Proxy) (m : String) : (setComplete g x m).1.name = x.name :=
+  (setComplete_fields g x m).2.1
+@[simp] theorem setComplete_held (g : Graph) (x : Proxy) (m : String) : (setComplete g x m).1.held = x.held :=
+  (setComplete_fields g x m).2.2
+
+/-- discharge `tr = false → Agrees S y` for a `y` obtained from `x` by status / counter / output updates -/
+macro "agr " h:ident : tactic =>
+  `(tactic| (intro htr; have hh := $h htr; unfold Agrees at hh ⊢
+             simp only [reset_held_none, reset_pt, reset_name, setComplete_pt, setComplete_name, setComplete_held]
+             exact hh))
+
+theorem holdInv_processMessage (g : Graph) : ∀ (fuel : Nat) (s : State) (p : Int) (n : String) (flag : Flag)
+    (sn : Nat) (msg : String), HoldInv s → HoldInv (processMessage g fuel s p n flag sn msg).1 := by
+  intro fuel
+  induction fuel with
+  | zero => intro s p n flag sn msg h; exact h
+  | succ fuel ih =>
+    intro s p n flag sn msg h
+    unfold processMessage
+    split
+    · exact h
+    · rename_i x tr hl
+      split
+      · exact h
+      · split
+        · exact h
+        · simp only
+          have hx : tr = false → Agrees s x := agrees_of_lookup h hl
+          have hx0 : tr = false → Agrees s
+              (if (msg == "submit-failed" || msg == "failed") = true then (x, some false) else setComplete g x msg).1 := by
+            split
+            · exact hx
+            · agr hx
+          generalize (if (msg == "submit-failed" || msg == "failed") = true then (x, some false)
+            else setComplete g x msg).1 = x0 at hx0 ⊢
+          have himp : ∀ (l : List String) (st : State), HoldInv st →
+              HoldInv (l.foldl (fun st m => (processMessage g fuel st p n .internal sn m).1) st) := by
+            intro l; induction l with
+            | nil => intro st hst; exact hst
+            | cons a l ihl => intro st hst; exact ihl _ (ih _ _ _ _ _ _ hst)
+          generalize hS : (List.foldl (fun st m => (processMessage g fuel st p n Flag.internal sn m).1) _ _) = S
+          have hSn : HoldInv S := by rw [← hS]; exact himp _ _ (holdInv_store h hx0)
+          split
+          · exact hSn
+          · rename_i x1 tr1 hl1
+            have hx1 : tr1 = false → Agrees S x1 := agrees_of_lookup hSn hl1
+            repeat' split
+            all_goals first
+              | exact hSn
+              | exact holdInv_store hSn (by agr hx1)
+              | exact holdInv_spawnChildren _ _ _ _ (holdInv_store hSn (by agr hx1))
+              | exact holdInv_spawnChildren _ _ _ _ hSn
+
+theorem holdInv_processQueue {g : Graph} {s : State} (h : HoldInv s) : HoldInv (processQueue g s) := by
+  unfold processQueue
+  refine foldl_inv HoldInv _ ?_ _ _ (holdInv_same (s := s) ⟨rfl, rfl, rfl, rfl⟩ h)
+  intro st grp hst
+  simp only
+  split
+  · exact hst
+  · have : ∀ (l : List Msg) (acc : State × Bool), HoldInv acc.1 →
+        HoldInv (l.foldl (fun (acc : State × Bool) m =>
+          let (st', pl) := processMessage g 4 acc.1 grp.1.1 grp.1.2 .received m.submitNum m.text
+          (st', acc.2 || pl)) acc).1 := by
+      intro l; induction l with
+      | nil => intro acc ha; exact ha
+      | cons m l ihl =>
+        intro acc ha
+        apply ihl
+        exact holdInv_processMessage g 4 _ _ _ _ _ _ ha
+    have h2 := this grp.2 (st, false) hst
+    split
+    · exact holdInv_same (s := _) ⟨rfl, rfl, rfl, rfl⟩ h2
+    · exact h2
+
+theorem holdInv_sweepQueue {s : State} (h : HoldInv s) : HoldInv (sweepQueue s) := by
+  unfold sweepQueue
+  refine foldl_inv HoldInv _ ?_ _ _ h
+  intro st x hst
+  split
+  · rename_i y hy
+    split
+    · have hy0 : Agrees st y := agrees_of_get? hst hy
+      have hy' : Agrees st ({ y with retryWait := false } : Proxy) := hy0
+      exact holdInv_queueIfReady (holdInv_put hst hy') hy'
+    · exact hst
+  · exact hst
+
+theorem holdInv_mapUpd {s : State} (h : HoldInv s) (a b : Bool) :
+    HoldInv { s with stalled := a, schedUpd := b, pool := s.pool.map fun x => { x with upd := false } } := by
+  intro x hx
+  simp only [List.mem_map] at hx
+  obtain ⟨y, hy, rfl⟩ := hx
+  exact h y hy
+
+theorem holdInv_finishLoop {g : Graph} {s : State} (h : HoldInv s) : HoldInv (finishLoop g s) := by
+  unfold finishLoop
+  extract_lets hasUpd s1 s2 s3
+  have h1 : HoldInv s1 := by
+    simp only [s1]; split
+    · exact holdInv_same (s := s) ⟨rfl, rfl, rfl, rfl⟩ h
+    · exact h
+  have h2 : HoldInv s2 := by
+    simp only [s2]; split
+    · exact holdInv_mapUpd h1 _ _
+    · exact h1
+  have h3 : HoldInv s3 := holdInv_same (s := s2) ⟨rfl, rfl, rfl, rfl⟩ h2
+  split
+  · exact holdInv_same (same_checkStalled g s3) h3
+  · exact h3
+
+theorem holdInv_mainLoop {g : Graph} {s : State} (h : HoldInv s) : HoldInv (mainLoop g s) := by
+  unfold mainLoop
+  split
+  · exact h
+  · extract_lets s1 s2 s3 s4 s5 s6
+    have h1 : HoldInv s1 := holdInv_same (same_computeRunahead g s false) h
+    have h2 : HoldInv s2 := holdInv_releaseRunahead h1
+    have h3 : HoldInv s3 := holdInv_same (shutdownBlock_same g s2) h2
+    split
+    · exact holdInv_same (s := s3) ⟨rfl, rfl, rfl, rfl⟩ h3
+    · have h4 : HoldInv s4 := holdInv_sweepQueue h3
+      have h5 : HoldInv s5 := by
+        simp only [s5]; split
+        · exact holdInv_releaseAndSubmit h4
+        · exact h4
+      exact holdInv_finishLoop (holdInv_processQueue h5)
+
+theorem holdInv_setStopPoint {s : State} (p : Int) (h : HoldInv s) : HoldInv (setStopPoint s p) := by
+  unfold setStopPoint
+  split
+  · exact h
+  · simp only
+    split
+    · split
+      · intro x hx
+        simp only [List.mem_map] at hx
+        obtain ⟨y, hy, rfl⟩ := hx
+        have := h y hy
+        split
+        · show (y.reset (runahead := some true)).held = _
+          rw [reset_held_none, reset_name, reset_pt]; exact this
+        · exact this
+      · exact holdInv_same (s := s) ⟨rfl, rfl, rfl, rfl⟩ h
+    · exact holdInv_same (s := s) ⟨rfl, rfl, rfl, rfl⟩ h
+
+theorem holdInv_setHoldPoint {s : State} (p : Int) (h : HoldInv s) : HoldInv (setHoldPoint s p) := by
+  unfold setHoldPoint
+  simp only
+  refine foldl_inv HoldInv _ ?_ _ _ (holdInv_sub (s := s) (fun _ hx => hx) rfl h)
+  intro st x hst
+  split
+  · split
+    · exact holdInv_holdActive _ hst
+    · exact hst
+  · exact hst
+
+theorem holdInv_holdTasks {s : State} (ids : List (Int × String)) (h : HoldInv s) : HoldInv (holdTasks s ids) := by
+  unfold holdTasks
+  refine foldl_inv HoldInv _ ?_ _ _ h
+  intro st k hst
+  split
+  · exact holdInv_holdActive _ hst
+  · rename_i hg
+    split
+    · exact hst
+    · intro x hx
+      have hx' : x ∈ st.pool := hx
+      show x.held = (st.tasksToHold ++ [(k.2, k.1)]).contains (x.name, x.pt)
+      have hne : (x.name, x.pt) ≠ (k.2, k.1) := by
+        intro he; simp only [Prod.mk.injEq] at he
+        exact get?_none_forall hg x hx' ⟨he.2, he.1⟩
+      rw [contains_append_ne hne]; exact hst x hx'
+
+theorem holdInv_releaseTasks {s : State} (ids : List (Int × String)) (h : HoldInv s) :
+    HoldInv (releaseTasks s ids) := by
+  unfold releaseTasks
+  refine foldl_inv HoldInv _ ?_ _ _ h
+  intro st k hst
+  split
+  · exact hst
+  · split
+    · rename_i y hy
+      exact holdInv_releaseHeldActive hst (agrees_of_get? hst hy)
+    · rename_i hg
+      intro x hx
+      have hx' : x ∈ st.pool := hx
+      show x.held = (st.tasksToHold.filter (· != (k.2, k.1))).contains (x.name, x.pt)
+      have hne : (x.name, x.pt) ≠ (k.2, k.1) := by
+        intro he; simp only [Prod.mk.injEq] at he
+        exact get?_none_forall hg x hx' ⟨he.2, he.1⟩
+      rw [contains_filter_ne hne]; exact hst x hx'
+
+/-! ### `releaseHoldPoint`: everything in the pool is released -/
+
+def releaseAllFold (l : List Proxy) (st : State) : State :=
+  l.foldl (fun st x => match st.get? x.pt x.name with
+    | some y => releaseHeldActive st y | none => st) st
+
+theorem tasksToHold_releaseHeldActive (s : State) (x : Proxy) :
+    (releaseHeldActive s x).tasksToHold = s.tasksToHold.filter (· != (x.name, x.pt)) := by
+  unfold releaseHeldActive
+  simp only
+  split <;> rfl
+
+theorem mem_pool_releaseHeldActive {s : State} {x y : Proxy} (h : y ∈ (releaseHeldActive s x).pool) :
+    ∃ z ∈ s.pool, z.pt = y.pt ∧ z.name = y.name := by
+  unfold releaseHeldActive at h
+  simp only at h
+  split at h
+  · rcases mem_put h with ⟨rfl, z, hz, hk⟩ | ⟨hy, _⟩
+    · exact ⟨z, hz, hk⟩
+    · exact ⟨y, hy, rfl, rfl⟩
+  · exact ⟨y, h, rfl, rfl⟩
+
+theorem hasKey_releaseHeldActive {s : State} {x : Proxy} {p : Int} {n : String}
+    (h : (s.get? p n).isSome = true) : ((releaseHeldActive s x).get? p n).isSome = true := by
+  cases hg : s.get? p n with
+  | none => simp [hg] at h
+  | some z =>
+    obtain ⟨hz, hzp, hzn⟩ := get?_some_mem hg
+    unfold releaseHeldActive
+    simp only
+    have key : ∀ s' : State, (∃ w ∈ s'.pool, w.pt = p ∧ w.name = n) → (s'.get? p n).isSome = true := by
+      intro s' ⟨w, hw, hwp, hwn⟩
+      have := get?_isSome_of_mem hw
+      rw [hwp, hwn] at this; exact this
+    split
+    · show ((State.put s _).get? p n).isSome = true
+      apply key
+      by_cases hk : z.pt = x.pt ∧ z.name = x.name
+      · refine ⟨_, mem_put_self (x := _) hz ?_, ?_, ?_⟩
+        · split <;> simp [hk.1, hk.2]
+        · split <;> simp [← hk.1, hzp]
+        · split <;> simp [← hk.2, hzn]
+      · refine ⟨z, mem_put_of_ne hz ?_, hzp, hzn⟩
+        intro hh; apply hk
+        split at hh <;> simpa using hh
+    · exact key _ ⟨z, hz, hzp, hzn⟩
+
+theorem releaseAllFold_shrinks : ∀ (l : List Proxy) (st : State) (k : String × Int),
+    k ∉ st.tasksToHold → k ∉ (releaseAllFold l st).tasksToHold := by
+  intro l; induction l with
+  | nil => intro st k h; exact h
+  | cons a l ih =>
+    intro st k h
+    unfold releaseAllFold
+    simp only [List.foldl_cons]
+    apply ih
+    split
+    · rw [tasksToHold_releaseHeldActive]
+      intro hm; exact h (List.mem_filter.mp hm).1
+    · exact h
+
+theorem releaseAllFold_removes : ∀ (l : List Proxy) (st : State) (x : Proxy), x ∈ l →
+    (st.get? x.pt x.name).isSome = true → (x.name, x.pt) ∉ (releaseAllFold l st).tasksToHold := by
+  intro l; induction l with
+  | nil => intro st x hx; simp at hx
+  | cons a l ih =>
+    intro st x hx hk
+    unfold releaseAllFold
+    simp only [List.foldl_cons]
+    rcases List.mem_cons.mp hx with rfl | hx'
+    · apply releaseAllFold_shrinks
+      cases hg : st.get? x.pt x.name with
+      | none => simp [hg] at hk
+      | some y =>
+        obtain ⟨_, hyp, hyn⟩ := get?_some_mem hg
+        simp only
+        rw [tasksToHold_releaseHeldActive, hyp, hyn]
+        intro hm
+        have := (List.mem_filter.mp hm).2
+        simp at this
+    · apply ih _ x hx'
+      split
+      · exact hasKey_releaseHeldActive hk
+      · exact hk
+
+theorem releaseAllFold_keys : ∀ (l : List Proxy) (st : State) (y : Proxy), y ∈ (releaseAllFold l st).pool →
+    ∃ z ∈ st.pool, z.pt = y.pt ∧ z.name = y.name := by
+  intro l; induction l with
+  | nil => intro st y hy; exact ⟨y, hy, rfl, rfl⟩
+  | cons a l ih =>
+    intro st y hy
+    unfold releaseAllFold at hy
+    simp only [List.foldl_cons] at hy
+    obtain ⟨z, hz, hzp, hzn⟩ := ih _ y hy
+    split at hz
+    · obtain ⟨w, hw, hwp, hwn⟩ := mem_pool_releaseHeldActive hz
+      exact ⟨w, hw, hwp.trans hzp, hwn.trans hzn⟩
+    · exact ⟨z, hz, hzp, hzn⟩
+
+theorem holdInv_releaseAllFold : ∀ (l : List Proxy) (st : State), HoldInv st → HoldInv (releaseAllFold l st) := by
+  intro l st h
+  unfold releaseAllFold
+  refine foldl_inv HoldInv _ ?_ _ _ h
+  intro st x hst
+  split
+  · rename_i y hy
+    exact holdInv_releaseHeldActive hst (agrees_of_get? hst hy)
+  · exact hst
+
+/-- after `release_hold_point` no proxy of the pool is held -/
+theorem releaseHoldPoint_all_released {s : State} (h : HoldInv s) :
+    ∀ y ∈ (releaseHoldPoint s).pool, y.held = false := by
+  unfold releaseHoldPoint
+  simp only
+  intro y hy
+  have h0 : HoldInv ({ s with holdPoint := none } : State) := holdInv_sub (s := s) (fun _ hx => hx) rfl h
+  have hy' : y ∈ (releaseAllFold s.pool { s with holdPoint := none }).pool := hy
+  obtain ⟨z, hz, hzp, hzn⟩ := releaseAllFold_keys _ _ y hy'
+  have hz' : z ∈ s.pool := hz
+  have hrem := releaseAllFold_removes s.pool { s with holdPoint := none } z hz' (get?_isSome_of_mem hz)
+  have := holdInv_releaseAllFold s.pool _ h0 y hy'
+  rw [this, ← hzp, ← hzn]
+  simpa using hrem
+
+theorem holdInv_releaseHoldPoint {s : State} (h : HoldInv s) : HoldInv (releaseHoldPoint s) := by
+  intro y hy
+  rw [releaseHoldPoint_all_released h y hy]
+  unfold releaseHoldPoint
+  simp
+
+/-! ### restart -/
+
+/-- the per-proxy part of `restart` (what `load_db_task_pool_for_restart` rebuilds from a `task_pool` row) -/
+def restoreProxy (x : Proxy) : Proxy :=
+  let (status, sn) := if x.status == .preparing then (Status.waiting, x.submitNum - 1) else (x.status, x.submitNum)
+  let keepOut := status == .running || status == .failed || status == .succeeded
+  let final := status == .failed || status == .succeeded || status == .expired
+  { x with status := status, submitNum := sn, done := if keepOut then x.done else [],
+           queued := false, runahead := !final, retryWait := false, live := false,
+           upd := (x.status == .preparing) || final }
+
+theorem restoreProxy_fields (x : Proxy) :
+    (restoreProxy x).pt = x.pt ∧ (restoreProxy x).name = x.name ∧ (restoreProxy x).held = x.held :=
+  ⟨rfl, rfl, rfl⟩
+
+/-- the state loaded from the database, before `configure` re-applies the hold point -/
+def restartLoaded (g : Graph) (s : State) : State :=
+  let cfgStop : Option Int := match s.dbStopCp with | some p => some p | none => g.cfgStop
+  let pool := s.pool.map restoreProxy
+  let wait := pool.isEmpty || (match cfgStop with
+    | some sp => pool.all (fun x => x.pt > sp)
+    | none => false)
+  { pool := pool, hist := s.hist, absDone := s.absDone,
+    tasksToHold := s.tasksToHold, holdPoint := s.holdPoint, stopPoint := some (cfgStop.getD g.fcp),
+    dbStopCp := s.dbStopCp, restartWait := wait,
+    stopTask := s.stopTask, stopTaskFinished := false, schedUpd := true }
+
+/-- `restart` = load, then re-apply the hold point -/
+theorem restart_eq (g : Graph) (s : State) :
+    restart g s = match s.holdPoint with
+      | some hp => setHoldPoint (restartLoaded g s) hp
+      | none => restartLoaded g s := by
+  unfold restart restartLoaded restoreProxy
+  rfl
+
+theorem holdInv_restartLoaded {g : Graph} {s : State} (h : HoldInv s) : HoldInv (restartLoaded g s) := by
+  intro x hx
+  have hx' : x ∈ s.pool.map restoreProxy := hx
+  obtain ⟨y, hy, rfl⟩ := List.mem_map.mp hx'
+  exact h y hy
+
+theorem holdInv_restart {g : Graph} {s : State} (h : HoldInv s) : HoldInv (restart g s) := by
+  rw [restart_eq]
+  split
+  · exact holdInv_setHoldPoint _ (holdInv_restartLoaded h)
+  · exact holdInv_restartLoaded h
+
+theorem holdInv_step {g : Graph} {s : State} (op : Op) (h : HoldInv s) : HoldInv (step g s op) := by
+  unfold step
+  have hc : HoldInv (clearOp s) := holdInv_sub (s := s) (fun _ hx => hx) rfl h
+  cases op with
+  | loop => exact holdInv_mainLoop hc
+  | subres p n ok sn => exact holdInv_processMessage g 4 _ _ _ _ _ _ hc
+  | msg p n sn text => exact holdInv_same (s := clearOp s) ⟨rfl, rfl, rfl, rfl⟩ hc
+  | hold ids => exact holdInv_holdTasks _ hc
+  | release ids => exact holdInv_releaseTasks _ hc
+  | setHoldPoint p => exact holdInv_setHoldPoint _ hc
+  | releaseHoldPoint => exact holdInv_releaseHoldPoint hc
+  | stop mode => exact holdInv_same (s := clearOp s) ⟨rfl, rfl, rfl, rfl⟩ hc
+  | stopPoint p => exact holdInv_setStopPoint _ hc
+  | stopTask p n => exact holdInv_same (s := clearOp s) ⟨rfl, rfl, rfl, rfl⟩ hc
+  | pause => exact holdInv_same (s := clearOp s) ⟨rfl, rfl, rfl, rfl⟩ hc
+  | resume => exact holdInv_same (s := clearOp s) ⟨rfl, rfl, rfl, rfl⟩ hc
+  | restart => exact holdInv_restart hc
+
+/-- in every state of every run, a pooled proxy is held exactly when its instance is in the hold table -/
+theorem holdInv_run (g : Graph) (ops : List Op) : ∀ s ∈ run g ops, HoldInv s :=
+  run_inv HoldInv g (holdInv_loadFromPoint g) (fun _ op h => holdInv_step op h) ops
+
+theorem holdInv_final (g : Graph) (ops : List Op) : HoldInv (final g ops) :=
+  holdInv_run g ops _ (final_mem_run g ops)
+
+/-- with the invariant, one held proxy of an instance means the instance is held -/
+theorem keyHeld_of_holdInv {s : State} {x : Proxy} (h : HoldInv s) (hx : x ∈ s.pool) (hh : x.held = true) :
+    KeyHeld x.pt x.name s := by
+  refine ⟨⟨x, hx, rfl, rfl⟩, ?_⟩
+  intro y hy hp hn
+  rw [h y hy, hp, hn, ← h x hx]; exact hh
+
+/-! ### `setHoldPoint`: what it does to the pool and the hold table -/
+
+def holdBeyondFold (p : Int) (l : List Proxy) (st : State) : State :=
+  l.foldl (fun st x => if x.pt > p then
+      match st.get? x.pt x.name with | some y => holdActive st y | none => st
+    else st) st
+
+theorem setHoldPoint_eq (s : State) (p : Int) :
+    setHoldPoint s p = holdBeyondFold p s.pool { s with holdPoint := some p } := rfl
+
+/-- every proxy of the instance is held -/
+def AllHeld (p : Int) (n : String) (st : State) : Prop := ∀ y ∈ st.pool, y.pt = p → y.name = n → y.held = true
+
+theorem pool_holdActive (s : State) (x : Proxy) : (holdActive s x).pool = (s.put (x.reset (held := some true))).pool := by
+  unfold holdActive; simp only; split <;> rfl
+
+theorem allHeld_holdActive {p : Int} {n : String} {st : State} (x : Proxy) (h : AllHeld p n st) :
+    AllHeld p n (holdActive st x) := by
+  intro y hy hp hn
+  rw [pool_holdActive] at hy
+  rcases mem_put hy with ⟨rfl, _⟩ | ⟨hy', _⟩
+  · exact reset_held_some x true
+  · exact h y hy' hp hn
+
+theorem allHeld_holdActive_self {st : State} (x : Proxy) : AllHeld x.pt x.name (holdActive st x) := by
+  intro y hy hp hn
+  rw [pool_holdActive] at hy
+  rcases mem_put hy with ⟨rfl, _⟩ | ⟨_, hk⟩
+  · exact reset_held_some x true
+  · exact absurd ⟨by simpa using hp, by simpa using hn⟩ hk
+
+theorem hasKey_of_exists {s : State} {p : Int} {n : String} (h : ∃ w ∈ s.pool, w.pt = p ∧ w.name = n) :
+    (s.get? p n).isSome = true := by
+  obtain ⟨w, hw, hwp, hwn⟩ := h
+  have := get?_isSome_of_mem hw
+  rw [hwp, hwn] at this; exact this
+
+theorem exists_of_hasKey {s : State} {p : Int} {n : String} (h : (s.get? p n).isSome = true) :
+    ∃ w ∈ s.pool, w.pt = p ∧ w.name = n := by
+  cases hg : s.get? p n with
+  | none => simp [hg] at h
+  | some z => exact ⟨z, get?_some_mem hg⟩
+
+/-- `put` keeps the set of keys -/
+theorem keys_put_iff (s : State) (x : Proxy) (p : Int) (n : String) :
+    (∃ w ∈ (s.put x).pool, w.pt = p ∧ w.name = n) ↔ (∃ w ∈ s.pool, w.pt = p ∧ w.name = n) := by
+  constructor
+  · rintro ⟨w, hw, hwp, hwn⟩
+    rcases mem_put hw with ⟨rfl, z, hz, hk⟩ | ⟨hw', _⟩
+    · exact ⟨z, hz, hk.1.trans hwp, hk.2.trans hwn⟩
+    · exact ⟨w, hw', hwp, hwn⟩
+  · rintro ⟨w, hw, hwp, hwn⟩
+    by_cases hk : w.pt = x.pt ∧ w.name = x.name
+    · exact ⟨x, mem_put_self hw hk, hk.1 ▸ hwp, hk.2 ▸ hwn⟩
+    · exact ⟨w, mem_put_of_ne hw hk, hwp, hwn⟩
+
+theorem keys_holdActive_iff (s : State) (x : Proxy) (p : Int) (n : String) :
+    (∃ w ∈ (holdActive s x).pool, w.pt = p ∧ w.name = n) ↔ (∃ w ∈ s.pool, w.pt = p ∧ w.name = n) := by
+  rw [pool_holdActive]; exact keys_put_iff s _ p n
+
+theorem holdBeyondFold_keys (p : Int) : ∀ (l : List Proxy) (st : State) (q : Int) (n : String),
+    (∃ w ∈ (holdBeyondFold p l st).pool, w.pt = q ∧ w.name = n) ↔ (∃ w ∈ st.pool, w.pt = q ∧ w.name = n) := by
+  intro l; induction l with
+  | nil => intro st q n; exact Iff.rfl
+  | cons a l ih =>
+    intro st q n
+    unfold holdBeyondFold
+    simp only [List.foldl_cons]
+    refine (ih _ q n).trans ?_
+    split
+    · split
+      · exact keys_holdActive_iff _ _ _ _
+      · exact Iff.rfl
+    · exact Iff.rfl
+
+theorem holdBeyondFold_allHeld_mono (p : Int) : ∀ (l : List Proxy) (st : State) (q : Int) (n : String),
+    AllHeld q n st → AllHeld q n (holdBeyondFold p l st) := by
+  intro l; induction l with
+  | nil => intro st q n h; exact h
+  | cons a l ih =>
+    intro st q n h
+    unfold holdBeyondFold
+    simp only [List.foldl_cons]
+    apply ih
+    split
+    · split
+      · exact allHeld_holdActive _ h
+      · exact h
+    · exact h
+
+/-- every instance of the list that lies beyond the point and is in the pool is held afterwards -/
+theorem holdBeyondFold_holds (p : Int) : ∀ (l : List Proxy) (st : State) (x : Proxy), x ∈ l → x.pt > p →
+    AllHeld x.pt x.name (holdBeyondFold p l st) := by
+  intro l; induction l with
+  | nil => intro st x hx; simp at hx
+  | cons a l ih =>
+    intro st x hx hgt
+    rcases List.mem_cons.mp hx with rfl | hx'
+    · unfold holdBeyondFold
+      simp only [List.foldl_cons, hgt, if_true]
+      apply holdBeyondFold_allHeld_mono
+      cases hg : st.get? x.pt x.name with
+      | none =>
+        intro y hy hp hn
+        exact absurd ⟨hp, hn⟩ (get?_none_forall hg y hy)
+      | some y0 =>
+        obtain ⟨_, h1, h2⟩ := get?_some_mem hg
+        have := allHeld_holdActive_self (st := st) y0
+        rw [h1, h2] at this
+        exact this
+    · unfold holdBeyondFold
+      simp only [List.foldl_cons]
+      exact ih _ x hx' hgt
+
+/-- proxies at or before the point are not touched -/
+theorem holdBeyondFold_untouched (p : Int) : ∀ (l : List Proxy) (st : State) (y : Proxy), ¬ y.pt > p →
+    (y ∈ (holdBeyondFold p l st).pool ↔ y ∈ st.pool) := by
+  intro l; induction l with
+  | nil => intro st y _; exact Iff.rfl
+  | cons a l ih =>
+    intro st y hy
+    unfold holdBeyondFold
+    simp only [List.foldl_cons]
+    refine (ih _ y hy).trans ?_
+    split
+    · rename_i hgt
+      split
+      · rename_i y0 hy0
+        obtain ⟨_, h1, h2⟩ := get?_some_mem hy0
+        rw [pool_holdActive]
+        have hne : ¬ (y.pt = (y0.reset (held := some true)).pt ∧ y.name = (y0.reset (held := some true)).name) := by
+          intro hk
+          apply hy
+          rw [hk.1, reset_pt, h1]; exact hgt
+        constructor
+        · intro hm
+          rcases mem_put hm with ⟨rfl, _⟩ | ⟨hm', _⟩
+          · exact absurd ⟨rfl, rfl⟩ hne
+          · exact hm'
+        · intro hm; exact mem_put_of_ne hm hne
+      · exact Iff.rfl
+    · exact Iff.rfl
+
+theorem tasksToHold_holdActive (s : State) (x : Proxy) :
+    (holdActive s x).tasksToHold =
+      if s.tasksToHold.contains (x.name, x.pt) then s.tasksToHold else s.tasksToHold ++ [(x.name, x.pt)] := by
+  unfold holdActive
+  simp only
+  by_cases hc : s.tasksToHold.contains (x.name, x.pt) = true
+  · have hc' : (s.put (x.reset (held := some true))).tasksToHold.contains (x.name, x.pt) = true := hc
+    rw [if_pos hc', if_pos hc]; rfl
+  · have hc' : ¬ (s.put (x.reset (held := some true))).tasksToHold.contains (x.name, x.pt) = true := hc
+    rw [if_neg hc', if_neg hc]; rfl
+
+/-- the hold table only grows, and only by pooled instances beyond the point -/
+theorem holdBeyondFold_table (p : Int) : ∀ (l : List Proxy) (st : State),
+    (∀ k ∈ st.tasksToHold, k ∈ (holdBeyondFold p l st).tasksToHold) ∧
+    (∀ k ∈ (holdBeyondFold p l st).tasksToHold, k ∈ st.tasksToHold ∨ ∃ x ∈ l, k = (x.name, x.pt) ∧ x.pt > p) := by
+  intro l; induction l with
+  | nil => intro st; exact ⟨fun k hk => hk, fun k hk => Or.inl hk⟩
+  | cons a l ih =>
+    intro st
+    unfold holdBeyondFold
+    simp only [List.foldl_cons]
+    split
+    · rename_i hgt
+      split
+      · rename_i y0 hy0
+        obtain ⟨_, h1, h2⟩ := get?_some_mem hy0
+        obtain ⟨i1, i2⟩ := ih (holdActive st y0)
+        constructor
+        · intro k hk
+          apply i1
+          rw [tasksToHold_holdActive]
+          split
+          · exact hk
+          · exact List.mem_append_left _ hk
+        · intro k hk
+          rcases i2 k hk with hk' | ⟨x, hx, hkx⟩
+          · rw [tasksToHold_holdActive] at hk'
+            split at hk'
+            · exact Or.inl hk'
+            · rcases List.mem_append.mp hk' with hk'' | hk''
+              · exact Or.inl hk''
+              · right
+                simp only [List.mem_singleton] at hk''
+                exact ⟨a, List.mem_cons_self, by rw [hk'', h1, h2], hgt⟩
+          · exact Or.inr ⟨x, List.mem_cons_of_mem _ hx, hkx⟩
+      · obtain ⟨i1, i2⟩ := ih st
+        refine ⟨i1, fun k hk => ?_⟩
+        rcases i2 k hk with hk' | ⟨x, hx, hkx⟩
+        · exact Or.inl hk'
+        · exact Or.inr ⟨x, List.mem_cons_of_mem _ hx, hkx⟩
+    · obtain ⟨i1, i2⟩ := ih st
+      refine ⟨i1, fun k hk => ?_⟩
+      rcases i2 k hk with hk' | ⟨x, hx, hkx⟩
+      · exact Or.inl hk'
+      · exact Or.inr ⟨x, List.mem_cons_of_mem _ hx, hkx⟩
+
+theorem holdPoint_holdBeyondFold (p : Int) : ∀ (l : List Proxy) (st : State),
+    (holdBeyondFold p l st).holdPoint = st.holdPoint := by
+  intro l st
+  unfold holdBeyondFold
+  refine foldl_inv (fun s' : State => s'.holdPoint = st.holdPoint) _ ?_ _ _ rfl
+  intro s' x hs'
+  split
+  · split
+    · unfold holdActive; simp only; split <;> exact hs'
+    · exact hs'
+  · exact hs'
+
+/-! ### what a restart does to the holds -/
+
+theorem restart_holdPoint (g : Graph) (s : State) : (restart g s).holdPoint = s.holdPoint := by
+  rw [restart_eq]
+  split
+  · rename_i hp hhp
+    rw [setHoldPoint_eq, holdPoint_holdBeyondFold, hhp]
+  · rfl
+
+theorem restart_table (g : Graph) (s : State) :
+    (∀ k ∈ s.tasksToHold, k ∈ (restart g s).tasksToHold) ∧
+    (∀ k ∈ (restart g s).tasksToHold, k ∈ s.tasksToHold ∨
+      ∃ x ∈ s.pool, k = (x.name, x.pt) ∧ beyondHold s.holdPoint x.pt = true) := by
+  rw [restart_eq]
+  split
+  · rename_i hp hhp
+    rw [setHoldPoint_eq]
+    obtain ⟨i1, i2⟩ := holdBeyondFold_table hp (restartLoaded g s).pool { restartLoaded g s with holdPoint := some hp }
+    refine ⟨fun k hk => i1 k hk, fun k hk => ?_⟩
+    rcases i2 k hk with hk' | ⟨y, hy, hky, hgt⟩
+    · exact Or.inl hk'
+    · have hy' : y ∈ s.pool.map restoreProxy := hy
+      obtain ⟨x, hx, rfl⟩ := List.mem_map.mp hy'
+      exact Or.inr ⟨x, hx, hky, by simp [beyondHold, hhp]; exact hgt⟩
+  · exact ⟨fun k hk => hk, fun k hk => Or.inl hk⟩
+
+/-- every proxy after the restart is a proxy from before, with its held flag, or held because it lies
+beyond the hold point -/
+theorem restart_pool_after (g : Graph) (s : State) :
+    ∀ y ∈ (restart g s).pool, ∃ x ∈ s.pool, x.pt = y.pt ∧ x.name = y.name ∧
+      (y.held = x.held ∨ (beyondHold s.holdPoint y.pt = true ∧ y.held = true)) := by
+  intro y hy
+  rw [restart_eq] at hy
+  split at hy
+  · rename_i hp hhp
+    rw [setHoldPoint_eq] at hy
+    by_cases hgt : y.pt > hp
+    · -- some proxy of that key was loaded, and all of them are held now
+      obtain ⟨w, hw, hwp, hwn⟩ :=
+        (holdBeyondFold_keys hp (restartLoaded g s).pool { restartLoaded g s with holdPoint := some hp } y.pt y.name).mp
+          ⟨y, hy, rfl, rfl⟩
+      have hw' : w ∈ s.pool.map restoreProxy := hw
+      obtain ⟨x, hx, rfl⟩ := List.mem_map.mp hw'
+      have hall := holdBeyondFold_holds hp (restartLoaded g s).pool { restartLoaded g s with holdPoint := some hp }
+        (restoreProxy x) hw (by rw [hwp]; exact hgt)
+      refine ⟨x, hx, hwp, hwn, Or.inr ⟨by simp [beyondHold, hhp]; exact hgt, ?_⟩⟩
+      exact hall y hy hwp.symm hwn.symm
+    · have hy0 := (holdBeyondFold_untouched hp (restartLoaded g s).pool
+        { restartLoaded g s with holdPoint := some hp } y hgt).mp hy
+      have hy' : y ∈ s.pool.map restoreProxy := hy0
+      obtain ⟨x, hx, rfl⟩ := List.mem_map.mp hy'
+      exact ⟨x, hx, rfl, rfl, Or.inl rfl⟩
+  · have hy' : y ∈ s.pool.map restoreProxy := hy
+    obtain ⟨x, hx, rfl⟩ := List.mem_map.mp hy'
+    exact ⟨x, hx, rfl, rfl, Or.inl rfl⟩
+
+/-- every proxy from before the restart is there after it, with its held flag, or held because it lies
+beyond the hold point -/
+theorem restart_pool_before (g : Graph) (s : State) :
+    ∀ x ∈ s.pool, ∃ y ∈ (restart g s).pool, y.pt = x.pt ∧ y.name = x.name ∧
+      (y.held = x.held ∨ (beyondHold s.holdPoint x.pt = true ∧ y.held = true)) := by
+  intro x hx
+  have hrx : restoreProxy x ∈ (restartLoaded g s).pool := List.mem_map.mpr ⟨x, hx, rfl⟩
+  rw [restart_eq]
+  split
+  · rename_i hp hhp
+    rw [setHoldPoint_eq]
+    by_cases hgt : x.pt > hp
+    · obtain ⟨y, hy, hyp, hyn⟩ :=
+        (holdBeyondFold_keys hp (restartLoaded g s).pool { restartLoaded g s with holdPoint := some hp } x.pt x.name).mpr
+          ⟨restoreProxy x, hrx, rfl, rfl⟩
+      have hall := holdBeyondFold_holds hp (restartLoaded g s).pool { restartLoaded g s with holdPoint := some hp }
+        (restoreProxy x) hrx hgt
+      exact ⟨y, hy, hyp, hyn, Or.inr ⟨by simp [beyondHold, hhp]; exact hgt, hall y hy hyp hyn⟩⟩
+    · have := (holdBeyondFold_untouched hp (restartLoaded g s).pool
+        { restartLoaded g s with holdPoint := some hp } (restoreProxy x) hgt).mpr hrx
+      exact ⟨restoreProxy x, this, rfl, rfl, Or.inl rfl⟩
+  · exact ⟨restoreProxy x, hrx, rfl, rfl, Or.inl rfl⟩
+
+/-! ### hold commands -/
+
+theorem holdActive_table_mono (s : State) (x : Proxy) : ∀ k ∈ s.tasksToHold, k ∈ (holdActive s x).tasksToHold := by
+  intro k hk
+  rw [tasksToHold_holdActive]
+  split
+  · exact hk
+  · exact List.mem_append_left _ hk
+
+theorem holdActive_table_self (s : State) (x : Proxy) : (x.name, x.pt) ∈ (holdActive s x).tasksToHold := by
+  rw [tasksToHold_holdActive]
+  split
+  · rename_i hc; simpa using hc
+  · simp
+
+/-- one id of a hold command -/
+def holdOne (st : State) (k : Int × String) : State :=
+  match st.get? k.1 k.2 with
+  | some y => holdActive st y
+  | none => if st.tasksToHold.contains (k.2, k.1) then st
+            else { st with tasksToHold := st.tasksToHold ++ [(k.2, k.1)] }
+
+theorem holdTasks_eq (s : State) (ids : List (Int × String)) : holdTasks s ids = ids.foldl holdOne s := rfl
+
+theorem holdOne_mono (st : State) (k : Int × String) : ∀ j ∈ st.tasksToHold, j ∈ (holdOne st k).tasksToHold := by
+  intro j hj
+  unfold holdOne
+  split
+  · exact holdActive_table_mono _ _ j hj
+  · split
+    · exact hj
+    · exact List.mem_append_left _ hj
+
+theorem holdOne_self (st : State) (k : Int × String) : (k.2, k.1) ∈ (holdOne st k).tasksToHold := by
+  unfold holdOne
+  split
+  · rename_i y hy
+    obtain ⟨_, h1, h2⟩ := get?_some_mem hy
+    have := holdActive_table_self st y
+    rw [h1, h2] at this; exact this
+  · split
+    · rename_i hc; simpa using hc
+    · simp
+
+theorem holdTasks_mono (s : State) (ids : List (Int × String)) :
+    ∀ j ∈ s.tasksToHold, j ∈ (holdTasks s ids).tasksToHold := by
+  rw [holdTasks_eq]
+  induction ids generalizing s with
+  | nil => intro j hj; exact hj
+  | cons k ids ih =>
+    intro j hj
+    simp only [List.foldl_cons]
+    exact ih _ j (holdOne_mono s k j hj)
+
+/-- **a hold command records every id it is given** (pooled or not) -/
+theorem holdTasks_mem (s : State) (ids : List (Int × String)) :
+    ∀ k ∈ ids, (k.2, k.1) ∈ (holdTasks s ids).tasksToHold := by
+  rw [holdTasks_eq]
+  induction ids generalizing s with
+  | nil => intro k hk; simp at hk
+  | cons a ids ih =>
+    intro k hk
+    simp only [List.foldl_cons]
+    rcases List.mem_cons.mp hk with rfl | hk'
+    · have := holdTasks_mono (holdOne s k) ids _ (holdOne_self s k)
+      rw [holdTasks_eq] at this; exact this
+    · exact ih _ k hk'
+
+/-- after `set_hold_point p` every pooled proxy beyond `p` is held -/
+theorem setHoldPoint_holds (s : State) (p : Int) :
+    (setHoldPoint s p).holdPoint = some p ∧ ∀ y ∈ (setHoldPoint s p).pool, y.pt > p → y.held = true := by
+  rw [setHoldPoint_eq]
+  refine ⟨by rw [holdPoint_holdBeyondFold], ?_⟩
+  intro y hy hgt
+  obtain ⟨w, hw, hwp, hwn⟩ :=
+    (holdBeyondFold_keys p s.pool { s with holdPoint := some p } y.pt y.name).mp ⟨y, hy, rfl, rfl⟩
+  have hw' : w ∈ s.pool := hw
+  exact holdBeyondFold_holds p s.pool { s with holdPoint := some p } w hw' (by rw [hwp]; exact hgt) y hy hwp.symm hwn.symm
+
+/-! ### `Keeps`: a recorded hold disappears only with the removal of the instance (or a release command) -/
+
+/-- an instance removed from the pool during the current operation -/
+def GhostKey (s : State) (k : String × Int) : Prop := ∃ x ∈ s.ghosts, (x.name, x.pt) = k
+
+/-- every hold recorded in `s` is still recorded in `s'`, unless the instance was removed from the pool meanwhile -/
+def Keeps (s s' : State) : Prop :=
+  (∀ k ∈ s.tasksToHold, k ∈ s'.tasksToHold ∨ GhostKey s' k) ∧ (∀ k, GhostKey s k → GhostKey s' k)
+
+theorem Keeps.refl (s : State) : Keeps s s := ⟨fun _ hk => Or.inl hk, fun _ hk => hk⟩
+
+theorem Keeps.trans {a b c : State} (h1 : Keeps a b) (h2 : Keeps b c) : Keeps a c := by
+  refine ⟨fun k hk => ?_, fun k hk => h2.2 k (h1.2 k hk)⟩
+  rcases h1.1 k hk with h | h
+  · exact h2.1 k h
+  · exact Or.inr (h2.2 k h)
+
+theorem keeps_of_eq {s s' : State} (ht : s'.tasksToHold = s.tasksToHold) (hg : s'.ghosts = s.ghosts) : Keeps s s' := by
+  refine ⟨fun k hk => Or.inl (ht ▸ hk), fun k hk => ?_⟩
+  unfold GhostKey at *; rw [hg]; exact hk
+
+theorem keeps_of_same_ghosts {s s' : State} (hs : Same s' s) (hg : s'.ghosts = s.ghosts) : Keeps s s' :=
+  keeps_of_eq hs.2.2.1 hg
+
+theorem keeps_put (s : State) (x : Proxy) : Keeps s (s.put x) := keeps_of_eq rfl rfl
+
+theorem keeps_add (s : State) (x : Proxy) : Keeps s (s.add x) := by
+  unfold State.add; split
+  · exact Keeps.refl s
+  · exact keeps_of_eq rfl rfl
+
+theorem keeps_spawnTask (g : Graph) (s : State) (n : String) (p : Int) : Keeps s (spawnTask g s n p).1 := by
+  cases hsp : (spawnTask g s n p).2 with
+  | none => rw [spawnTask_none hsp]; exact Keeps.refl s
+  | some y =>
+    rw [(spawnTask_some hsp).2.2.2]
+    refine ⟨fun k hk => Or.inl ?_, fun k hk => hk⟩
+    show k ∈ holdTableAfterSpawn s n p
+    unfold holdTableAfterSpawn
+    split
+    · exact List.mem_append_left _ hk
+    · exact hk
+
+theorem keeps_spawnAndAdd (g : Graph) (s : State) (n : String) (p : Int) : Keeps s (spawnAndAdd g s n p) := by
+  unfold spawnAndAdd
+  split
+  · exact Keeps.refl s
+  · have h := keeps_spawnTask g s n p
+    split
+    · rename_i st x heq
+      rw [heq] at h
+      exact h.trans (keeps_add _ _)
+    · rename_i st heq
+      rw [heq] at h
+      exact h
+
+theorem keeps_spawnNextParentless (g : Graph) (s : State) (x : Proxy) : Keeps s (spawnNextParentless g s x) := by
+  unfold spawnNextParentless
+  split
+  · exact Keeps.refl s
+  · split
+    · exact keeps_spawnAndAdd _ _ _ _
+    · exact Keeps.refl s
+
+theorem foldl_keeps {α} (f : State → α → State) (h : ∀ s a, Keeps s (f s a)) :
+    ∀ (l : List α) (s : State), Keeps s (l.foldl f s) := by
+  intro l; induction l with
+  | nil => intro s; exact Keeps.refl s
+  | cons a l ih => intro s; exact (h s a).trans (ih _)
+
+theorem keeps_releaseRunahead (g : Graph) (s : State) : Keeps s (releaseRunahead g s).1 := by
+  unfold releaseRunahead
+  split
+  · exact Keeps.refl s
+  · split
+    · exact Keeps.refl s
+    · simp only
+      apply foldl_keeps
+      intro st x
+      have h1 : Keeps st (match st.get? x.pt x.name with
+          | some y => st.put (y.reset (runahead := some false))
+          | none => st) := by
+        split
+        · exact keeps_put _ _
+        · exact Keeps.refl st
+      exact h1.trans (keeps_spawnNextParentless _ _ _)
+
+theorem ghosts_releaseHeldActive (s : State) (x : Proxy) : (releaseHeldActive s x).ghosts = s.ghosts := by
+  unfold releaseHeldActive; simp only; split <;> rfl
+
+/-- `remove` drops the hold of the removed instance only, and that instance becomes a ghost -/
+theorem keeps_remove (g : Graph) (s : State) (x : Proxy) : Keeps s (remove g s x) := by
+  unfold remove
+  extract_lets s1 x1 s2
+  have hx1 : (x1.name, x1.pt) = (x.name, x.pt) := by
+    simp only [x1]
+    cases hg : s1.get? x.pt x.name with
+    | none => rfl
+    | some y =>
+      obtain ⟨_, h1, h2⟩ := get?_some_mem hg
+      simp [h1, h2]
+  have h12 : Keeps s1 s2 := by
+    simp only [s2]; split
+    · exact keeps_spawnNextParentless _ _ _
+    · exact Keeps.refl s1
+  constructor
+  · intro k hk
+    by_cases hkx : k = (x.name, x.pt)
+    · right
+      refine ⟨x1, ?_, hx1.trans hkx.symm⟩
+      show x1 ∈ s2.ghosts ++ [x1]
+      simp
+    · have hk1 : k ∈ s1.tasksToHold := by
+        simp only [s1]
+        rw [tasksToHold_releaseHeldActive]
+        exact List.mem_filter.mpr ⟨hk, by simpa using hkx⟩
+      rcases h12.1 k hk1 with h | ⟨w, hw, hwk⟩
+      · exact Or.inl h
+      · right
+        refine ⟨w, ?_, hwk⟩
+        show w ∈ s2.ghosts ++ [x1]
+        exact List.mem_append_left _ hw
+  · intro k ⟨w, hw, hwk⟩
+    have hw1 : w ∈ s1.ghosts := by simp only [s1]; rw [ghosts_releaseHeldActive]; exact hw
+    obtain ⟨w', hw', hwk'⟩ := h12.2 k ⟨w, hw1, hwk⟩
+    refine ⟨w', ?_, hwk'⟩
+    show w' ∈ s2.ghosts ++ [x1]
+    exact List.mem_append_left _ hw'
+
+theorem keeps_removeIfComplete (g : Graph) (s : State) (x : Proxy) : Keeps s (removeIfComplete g s x) := by
+  unfold removeIfComplete
+  split
+  · exact Keeps.refl s
+  · simp only
+    have key : ∀ s1 : State, Keeps s s1 →
+        Keeps s (match g.task? x.name with
+          | none => s1
+          | some t => if isComplete t x.done = true then remove g s1 x else s1) := by
+      intro s1 hs1
+      split
+      · exact hs1
+      · split
+        · exact hs1.trans (keeps_remove _ _ _)
+        · exact hs1
+    apply key
+    split
+    · exact keeps_of_eq rfl rfl
+    · exact Keeps.refl s
+
+theorem keeps_spawnChildFin (p : Int) (n out : String) (sui : List (Int × String)) (c : Child)
+    (st1 : State) (ch : Option Proxy) (inPool : Bool) : Keeps st1 (spawnChildFin p n out sui c st1 ch inPool).1 := by
+  unfold spawnChildFin
+  split
+  · exact Keeps.refl st1
+  · refine foldl_inv (fun a : State × List (Int × String) => Keeps st1 a.1) _ ?_ _ _ ?_
+    · intro a k ha
+      simp only
+      split
+      · exact ha
+      · exact ha.trans (keeps_put _ _)
+    · simp only
+      split
+      · exact Keeps.refl st1
+      · exact keeps_add _ _
+
+theorem keeps_spawnChild (g : Graph) (p : Int) (n out : String) (acc : State × List (Int × String)) (c : Child) :
+    Keeps acc.1 (spawnChild g p n out acc c).1 := by
+  obtain ⟨st, sui⟩ := acc
+  rw [spawnChild_eq]
+  simp only
+  have h0 : Keeps st (if (c.isAbs && !st.absDone.contains ⟨p, n, out⟩) = true then
+      { st with absDone := st.absDone ++ [⟨p, n, out⟩] } else st) := by
+    split
+    · exact keeps_of_eq rfl rfl
+    · exact Keeps.refl st
+  generalize (if (c.isAbs && !st.absDone.contains ⟨p, n, out⟩) = true then
+      { st with absDone := st.absDone ++ [⟨p, n, out⟩] } else st) = st0 at h0 ⊢
+  split
+  · exact h0.trans (keeps_spawnChildFin _ _ _ _ _ _ _ _)
+  · exact (h0.trans (keeps_spawnTask g st0 c.name c.pt)).trans (keeps_spawnChildFin _ _ _ _ _ _ _ _)
+
+theorem keeps_spawnOnOutput (g : Graph) (s : State) (p : Int) (n out : String) :
+    Keeps s (spawnOnOutput g s p n out) := by
+  unfold spawnOnOutput
+  split
+  · exact Keeps.refl s
+  · simp only
+    have h1 : ∀ (cs : List Child) (acc : State × List (Int × String)),
+        Keeps acc.1 (cs.foldl (spawnChild g p n out) acc).1 := by
+      intro cs; induction cs with
+      | nil => intro acc; exact Keeps.refl _
+      | cons c cs ih => intro acc; exact (keeps_spawnChild g p n out acc c).trans (ih _)
+    have h2 : ∀ (ks : List (Int × String)) (st : State),
+        Keeps st (ks.foldl (fun (st : State) k => match st.get? k.1 k.2 with
+          | some z => remove g st z
+          | none => st) st) := by
+      intro ks; induction ks with
+      | nil => intro st; exact Keeps.refl _
+      | cons k ks ih =>
+        intro st
+        simp only [List.foldl_cons]
+        refine Keeps.trans ?_ (ih _)
+        split
+        · exact keeps_remove _ _ _
+        · exact Keeps.refl st
+    generalize hR : (List.foldl (spawnChild g p n out) (s, []) _) = R
+    have hRn : Keeps s R.1 := by rw [← hR]; exact h1 _ (s, [])
+    have h3 := hRn.trans (h2 R.2 R.1)
+    split
+    · exact h3.trans (keeps_removeIfComplete _ _ _)
+    · exact h3
+
+/-- `store` of a proxy with the key it was looked up under -/
+theorem keeps_store (s : State) (x : Proxy) (tr : Bool) : Keeps s (store s x tr) := by
+  unfold store; split
+  · refine ⟨fun k hk => Or.inl hk, fun k hk => ?_⟩
+    obtain ⟨w, hw, hwk⟩ := hk
+    by_cases hkx : w.pt = x.pt ∧ w.name = x.name
+    · refine ⟨x, ?_, by rw [← hwk, hkx.1, hkx.2]⟩
+      simp only [List.mem_map]
+      exact ⟨w, hw, by simp [hkx.1, hkx.2]⟩
+    · refine ⟨w, ?_, hwk⟩
+      simp only [List.mem_map]
+      refine ⟨w, hw, ?_⟩
+      split
+      · rename_i hk'
+        simp only [Bool.and_eq_true, beq_iff_eq] at hk'
+        exact absurd hk' hkx
+      · rfl
+  · exact keeps_put _ _
+
+theorem keeps_spawnChildren (g : Graph) (s : State) (p : Int) (n out : String) (tr : Bool) :
+    Keeps s (spawnChildren g s p n out tr) := by
+  unfold spawnChildren; split
+  · exact Keeps.refl s
+  · exact keeps_spawnOnOutput _ _ _ _ _
+
+theorem keeps_processMessage (g : Graph) : ∀ (fuel : Nat) (s : State) (p : Int) (n : String) (flag : Flag)
+    (sn : Nat) (msg : String), Keeps s (processMessage g fuel s p n flag sn msg).1 := by
+  intro fuel
+  induction fuel with
+  | zero => intro s p n flag sn msg; exact Keeps.refl s
+  | succ fuel ih =>
+    intro s p n flag sn msg
+    unfold processMessage
+    split
+    · exact Keeps.refl s
+    · rename_i x tr _
+      split
+      · exact Keeps.refl s
+      · split
+        · exact Keeps.refl s
+        · simp only
+          have himp : ∀ (l : List String) (st : State),
+              Keeps st (l.foldl (fun st m => (processMessage g fuel st p n .internal sn m).1) st) := by
+            intro l; induction l with
+            | nil => intro st; exact Keeps.refl st
+            | cons a l ihl => intro st; exact (ih _ _ _ _ _ _).trans (ihl _)
+          generalize hS : (List.foldl (fun st m => (processMessage g fuel st p n Flag.internal sn m).1) _ _) = S
+          have hSn : Keeps s S := by rw [← hS]; exact (keeps_store _ _ _).trans (himp _ _)
+          split
+          · exact hSn
+          · repeat' split
+            all_goals first
+              | exact hSn
+              | exact hSn.trans (keeps_store _ _ _)
+              | exact (hSn.trans (keeps_store _ _ _)).trans (keeps_spawnChildren _ _ _ _ _ _)
+              | exact hSn.trans (keeps_spawnChildren _ _ _ _ _ _)
+
+theorem foldl_keeps_fst {α β} (f : State × β → α → State × β) (h : ∀ a x, Keeps a.1 (f a x).1) :
+    ∀ (l : List α) (a : State × β), Keeps a.1 (l.foldl f a).1 := by
+  intro l; induction l with
+  | nil => intro a; exact Keeps.refl _
+  | cons x l ih => intro a; exact (h a x).trans (ih _)
+
+theorem keeps_processQueue (g : Graph) (s : State) : Keeps s (processQueue g s) := by
+  unfold processQueue
+  refine Keeps.trans (b := { s with queue := [] }) (keeps_of_eq rfl rfl) ?_
+  apply foldl_keeps
+  intro st grp
+  simp only
+  split
+  · exact Keeps.refl st
+  · have h2 := foldl_keeps_fst (fun (acc : State × Bool) (m : Msg) =>
+          let (st', pl) := processMessage g 4 acc.1 grp.1.1 grp.1.2 .received m.submitNum m.text
+          (st', acc.2 || pl))
+        (fun a m => keeps_processMessage g 4 a.1 grp.1.1 grp.1.2 .received m.submitNum m.text) grp.2 (st, false)
+    split
+    · exact h2.trans (keeps_of_eq rfl rfl)
+    · exact h2
+
+theorem ghosts_checkStalled (g : Graph) (s : State) : (checkStalled g s).ghosts = s.ghosts := by
+  unfold checkStalled; split
+  · rfl
+  · split
+    · rfl
+    · split <;> rfl
+
+theorem ghosts_checkAutoShutdown (g : Graph) (s : State) : (checkAutoShutdown g s).1.ghosts = s.ghosts := by
+  unfold checkAutoShutdown
+  split
+  · rfl
+  · simp only
+    split
+    · exact ghosts_checkStalled _ _
+    · split
+      · exact ghosts_checkStalled _ _
+      · exact ghosts_checkStalled _ _
+
+theorem ghosts_stopTaskDone (s : State) : (stopTaskDone s).1.ghosts = s.ghosts := by
+  unfold stopTaskDone; split <;> rfl
+
+theorem ghosts_computeRunahead (g : Graph) (s : State) (f : Bool) : (computeRunahead g s f).ghosts = s.ghosts := by
+  unfold computeRunahead
+  simp only
+  split
+  · rfl
+  · split <;> rfl
+
+theorem keeps_queueIfReady (s : State) (x : Proxy) : Keeps s (queueIfReady s x) := by
+  unfold queueIfReady; split
+  · exact keeps_put _ _
+  · exact Keeps.refl s
+
+theorem keeps_sweepQueue (s : State) : Keeps s (sweepQueue s) := by
+  unfold sweepQueue
+  apply foldl_keeps
+  intro st x
+  split
+  · split
+    · exact (keeps_put _ _).trans (keeps_queueIfReady _ _)
+    · exact Keeps.refl st
+  · exact Keeps.refl st
+
+theorem keeps_releaseAndSubmit (s : State) : Keeps s (releaseAndSubmit s) := by
+  unfold releaseAndSubmit
+  simp only
+  split
+  · exact Keeps.refl s
+  · refine Keeps.trans (b := List.foldl _ s _) ?_ (keeps_of_eq rfl rfl)
+    apply foldl_keeps
+    intro st x
+    exact keeps_of_eq rfl rfl
+
+theorem keeps_finishLoop (g : Graph) (s : State) : Keeps s (finishLoop g s) := by
+  unfold finishLoop
+  extract_lets hasUpd s1 s2 s3
+  have h1 : Keeps s s1 := by simp only [s1]; split; exact keeps_of_eq rfl rfl; exact Keeps.refl s
+  have h2 : Keeps s1 s2 := by simp only [s2]; split; exact keeps_of_eq rfl rfl; exact Keeps.refl s1
+  have h3 : Keeps s2 s3 := keeps_of_eq rfl rfl
+  have h := (h1.trans h2).trans h3
+  split
+  · exact h.trans (keeps_of_same_ghosts (same_checkStalled g s3) (ghosts_checkStalled g s3))
+  · exact h
+
+theorem shutdownBlock_ghosts (g : Graph) (s2 : State) :
+    (if s2.stopMode.isNone = true then
+        match stopTaskDone s2 with
+        | (s, std) =>
+          if std = true then { s with stopMode := some "AUTOMATIC" }
+          else
+            match checkAutoShutdown g s with
+            | (s, auto) => if auto = true then { s with stopMode := some "AUTOMATIC" } else s
+      else s2).ghosts = s2.ghosts := by
+  split
+  · simp only
+    split
+    · exact ghosts_stopTaskDone s2
+    · split
+      · exact (ghosts_checkAutoShutdown g _).trans (ghosts_stopTaskDone s2)
+      · exact (ghosts_checkAutoShutdown g _).trans (ghosts_stopTaskDone s2)
+  · rfl
+
+theorem keeps_mainLoop (g : Graph) (s : State) : Keeps s (mainLoop g s) := by
+  unfold mainLoop
+  split
+  · exact Keeps.refl s
+  · extract_lets s1 s2 s3 s4 s5 s6
+    have h1 : Keeps s s1 := keeps_of_same_ghosts (same_computeRunahead g s false) (ghosts_computeRunahead g s false)
+    have h2 : Keeps s1 s2 := keeps_releaseRunahead g s1
+    have h3 : Keeps s2 s3 := keeps_of_same_ghosts (shutdownBlock_same g s2) (shutdownBlock_ghosts g s2)
+    have h123 := (h1.trans h2).trans h3
+    split
+    · exact h123.trans (keeps_of_eq rfl rfl)
+    · have h4 : Keeps s3 s4 := keeps_sweepQueue s3
+      have h5 : Keeps s4 s5 := by
+        simp only [s5]; split
+        · exact keeps_releaseAndSubmit s4
+        · exact Keeps.refl s4
+      exact (((h123.trans h4).trans h5).trans (keeps_processQueue g s5)).trans (keeps_finishLoop g s6)
+
+theorem keeps_holdActive (s : State) (x : Proxy) : Keeps s (holdActive s x) := by
+  refine ⟨fun k hk => Or.inl (holdActive_table_mono s x k hk), fun k hk => ?_⟩
+  have : (holdActive s x).ghosts = s.ghosts := by unfold holdActive; simp only; split <;> rfl
+  unfold GhostKey at *; rw [this]; exact hk
+
+theorem keeps_setHoldPoint (s : State) (p : Int) : Keeps s (setHoldPoint s p) := by
+  rw [setHoldPoint_eq]
+  refine Keeps.trans (b := { s with holdPoint := some p }) (keeps_of_eq rfl rfl) ?_
+  unfold holdBeyondFold
+  apply foldl_keeps
+  intro st x
+  split
+  · split
+    · exact keeps_holdActive _ _
+    · exact Keeps.refl st
+  · exact Keeps.refl st
+
+theorem keeps_holdTasks (s : State) (ids : List (Int × String)) : Keeps s (holdTasks s ids) := by
+  rw [holdTasks_eq]
+  apply foldl_keeps
+  intro st k
+  unfold holdOne
+  split
+  · exact keeps_holdActive _ _
+  · split
+    · exact Keeps.refl st
+    · exact ⟨fun j hj => Or.inl (List.mem_append_left _ hj), fun j hj => hj⟩
+
+theorem keeps_setStopPoint (s : State) (p : Int) : Keeps s (setStopPoint s p) := by
+  unfold setStopPoint
+  split
+  · exact Keeps.refl s
+  · simp only
+    split
+    · split
+      · exact keeps_of_eq rfl rfl
+      · exact keeps_of_eq rfl rfl
+    · exact keeps_of_eq rfl rfl
+
+/-- an operation that is not a release command never drops a recorded hold, except with the removal of the
+instance from the pool in that very operation -/
+theorem keeps_step (g : Graph) (s : State) (op : Op)
+    (hop : (∀ ids, op ≠ .release ids) ∧ op ≠ .releaseHoldPoint) :
+    ∀ k ∈ s.tasksToHold, k ∈ (step g s op).tasksToHold ∨ GhostKey (step g s op) k := by
+  have hc : ∀ s' : State, Keeps (clearOp s) s' → ∀ k ∈ s.tasksToHold, k ∈ s'.tasksToHold ∨ GhostKey s' k :=
+    fun s' h k hk => h.1 k hk
+  unfold step
+  cases op with
+  | loop => exact hc _ (keeps_mainLoop g _)
+  | subres p n ok sn => exact hc _ (keeps_processMessage g 4 _ _ _ _ _ _)
+  | msg p n sn text => exact hc _ (keeps_of_eq rfl rfl)
+  | hold ids => exact hc _ (keeps_holdTasks _ _)
+  | release ids => exact absurd rfl (hop.1 ids)
+  | setHoldPoint p => exact hc _ (keeps_setHoldPoint _ _)
+  | releaseHoldPoint => exact absurd rfl hop.2
+  | stop mode => exact hc _ (keeps_of_eq rfl rfl)
+  | stopPoint p => exact hc _ (keeps_setStopPoint _ _)
+  | stopTask p n => exact hc _ (keeps_of_eq rfl rfl)
+  | pause => exact hc _ (keeps_of_eq rfl rfl)
+  | resume => exact hc _ (keeps_of_eq rfl rfl)
+  | restart => exact fun k hk => Or.inl ((restart_table g (clearOp s)).1 k hk)
 
 end CylcModel.Sched2
